@@ -14,12 +14,14 @@ open ArrowModel.Proto
 inductive Val where
   | i (x : Int)
   | s (cs : List Char)
+  | b (bs : List Nat)
+  | t (xs : List Int)
 deriving BEq, Inhabited
 
 inductive Ty where
   | int (lo hi : Int)
   | dec (w p : Nat) (s : Int)
-  | bool | str | float (eb fb : Nat)
+  | bool | str | float (eb fb : Nat) | null | bin | fsb (n : Nat) | iym | idt | imdn
   | ts (u : Nat) | dur (u : Nat) | date32 | date64 | t32 (u : Nat) | t64 (u : Nat)
 deriving BEq
 
@@ -43,6 +45,9 @@ def parseTy (t : String) : Option Ty :=
   | "u64" => some (.int 0 18446744073709551615)
   | "f16" => some (.float 5 10) | "f32" => some (.float 8 23) | "f64" => some (.float 11 52)
   | "bool" => some .bool
+  | "null" => some .null
+  | "bin" | "lbin" | "binv" => some .bin
+  | "iym" => some .iym | "idt" => some .idt | "imdn" => some .imdn
   | "utf8" | "lutf8" | "utf8v" => some .str
   | "date32" => some .date32 | "date64" => some .date64
   | _ =>
@@ -52,6 +57,7 @@ def parseTy (t : String) : Option Ty :=
       match w, p.toNat?, Proto.parseInt s with
       | some w, some p, some s => some (.dec w p s)
       | _, _, _ => none
+    | ["fsb", n] => n.toNat?.map .fsb
     | ["ts", u] => (unitIdx u).map .ts
     | ["dur", u] => (unitIdx u).map .dur
     | ["t32", u] => (unitIdx u).map .t32
@@ -85,7 +91,7 @@ inductive Plan where
 
 def liftI (f : Int → Option Int) : Val → Option Val
   | .i x => (f x).map .i
-  | .s _ => none
+  | _ => none
 
 def parseHexStr (s : String) : Option (List Char) := do
   let bs ← parseHex (if s.length = 1 then "-" else (s.drop 1).toString)
@@ -111,6 +117,7 @@ def dayMs : Nat := Generated.C13.SECONDS_IN_DAY * Generated.C13.MILLISECONDS
 
 def plan (src dst : Ty) : Plan :=
   if src == dst then .ident else
+  if src == .null then .zeros none else
   if (match dst with | .dec w p s => !validDecType w p s | _ => false) then .typeErr else
   match src, dst with
   -- floating point
@@ -130,13 +137,16 @@ def plan (src dst : Ty) : Plan :=
         | .fin neg m e => floatToIntSpec lo hi neg m e
         | _ => none)))
   | .int _ _, .float eb fb =>
-    if eb = 5 then .skip else
-    .rowwise (liftI (fun x => some (encodeF eb fb (intToFloat eb fb x)))) none
+    .rowwise (liftI (fun x => some (encodeF eb fb
+      (if eb = 5 then fconv 5 10 (intToFloat 8 23 x) else intToFloat eb fb x)))) none
   | .float eb1 fb1, .float eb2 fb2 =>
-    if eb2 = 5 then .skip else
-    .rowwise (liftI (fun bits => some (encodeF eb2 fb2 (match decodeF eb1 fb1 bits.toNat with
-      | .fin neg m e => rneRat eb2 fb2 neg (m * 2 ^ e.toNat) (2 ^ (-e).toNat)
-      | v => v)))) none
+    .rowwise (liftI (fun bits => some (encodeF eb2 fb2 (toFormat eb2 fb2 (decodeF eb1 fb1 bits.toNat))))) none
+  | .bool, .float eb fb =>
+    .rowwise (liftI (fun x => some (encodeF eb fb (if x = 0 then .fin false 0 (1 - fbias eb - fb) else rneRat eb fb false 1 1)))) none
+  | .float eb fb, .bool =>
+    .rowwise (liftI (fun bits => some (if floatNonZero (decodeF eb fb bits.toNat) then 1 else 0))) none
+  | .dec w _ s, .float eb fb =>
+    .allSlots (liftI (fun x => some (encodeF eb fb (decToFloat w s eb fb x)))) none
   | .float _ _, _ | _, .float _ _ => .skip
   -- decimals
   | .dec w1 p1 s1, .dec w2 p2 s2 =>
@@ -159,6 +169,34 @@ def plan (src dst : Ty) : Plan :=
   | .str, .dec w p s =>
     if s < 0 ∨ s > (maxPrecision w : Int) then .typeErr
     else .rowwise (fun v => match v with | .s cs => (parseDecimal w p s.toNat cs).map .i | _ => none) none
+  -- intervals
+  | .iym, .imdn => .allSlots (fun v => match v with | .t [m] => some (.t [m, 0, 0]) | _ => none) none
+  | .int lo _, .iym => if lo = i32lo then .rowwise (fun v => match v with | .i x => some (.t [x]) | _ => none) none else .skip
+  | .idt, .imdn => .allSlots (fun v => match v with | .t [d, ms] => some (.t [0, d, ms * 1000000]) | _ => none) none
+  | .dur u, .imdn =>
+    .rowwise (fun v => match v with
+      | .i x => (mulChecked 64 (Generated.C13.NANOSECONDS / unitMult u) x).map (fun n => .t [0, 0, n])
+      | _ => none) none
+  | .imdn, .dur u =>
+    .rowwise (fun v => match v with
+      | .t [m, d, ns] => if m = 0 ∧ d = 0 then some (.i (tdivNat ns (Generated.C13.NANOSECONDS / unitMult u))) else none
+      | _ => none) none
+  -- byte containers
+  | .bin, .bin => .ident
+  | .bin, .str =>
+    -- `try_from_binary` / `extend_valid_utf8`: a value converts iff it is valid UTF-8
+    .rowwise (fun v => match v with
+      | .b bs => if ByteArray.validateUTF8 (ByteArray.mk (bs.map (fun b => b.toUInt8)).toArray) then some (.b bs) else none
+      | _ => none) none
+  | .str, .bin => .ident
+  | .fsb _, .bin => .ident
+  | .bin, .fsb n => .rowwise (fun v => match v with | .b bs => if bs.length = n then some (.b bs) else none | _ => none) none
+  | .int _ hi, .bin =>
+    -- `cast_numeric_to_binary`: the little-endian native bytes
+    let w : Nat := if hi = 127 ∨ hi = 255 then 1 else if hi = 32767 ∨ hi = 65535 then 2 else if hi = i32hi ∨ hi = 4294967295 then 4 else 8
+    .rowwise (fun v => match v with
+      | .i x => some (.b (natToBytes w ((x % (2 ^ (8 * w) : Int)).toNat)))
+      | _ => none) none
   -- integers, booleans, text
   | .int _ _, .int lo hi => .rowwise (liftI (numCast lo hi)) (some (liftI (intCastSpec lo hi)))
   | .int _ _, .bool => .rowwise (liftI (fun x => some (if x = 0 then 0 else 1))) none
@@ -220,12 +258,20 @@ def parseTok (ty : Ty) (t : String) : Option (Val × Bool) :=
     else if t.startsWith "n:" then (false, (t.drop 2).toString)
     else (true, t)
   match ty with
+  | .iym | .idt | .imdn =>
+    if pl = "" then some (.t (match ty with | .iym => [0] | .idt => [0, 0] | _ => [0, 0, 0]), valid)
+    else ((pl.splitOn "/").mapM Proto.parseInt).map (fun xs => (.t xs, valid))
+  | .bin | .fsb _ =>
+    if pl = "" then some (.b [], valid)
+    else (parseHex (if pl.length = 1 then "-" else (pl.drop 1).toString)).map (fun bs => (.b bs, valid))
   | .str => if pl = "" then some (.s [], valid) else (parseHexStr pl).map (fun cs => (.s cs, valid))
   | _ => if pl = "" then some (.i 0, valid) else (Proto.parseInt pl).map (fun x => (.i x, valid))
 
 def showVal : Val → String
   | .i x => toString x
   | .s cs => showHexStr cs
+  | .b bs => "x" ++ (if bs.isEmpty then "" else toHex bs)
+  | .t xs => "/".intercalate (xs.map toString)
 
 def showRows (rows : List (Val × Bool)) : String :=
   showList (fun r => if r.2 then showVal r.1 else "n") rows
@@ -235,6 +281,8 @@ def showLogical (rows : List (Option Val)) : String :=
 
 def zeroOf : Ty → Val
   | .str => .s []
+  | .bin | .fsb _ => .b []
+  | .iym => .t [0] | .idt => .t [0, 0] | .imdn => .t [0, 0, 0]
   | _ => .i 0
 
 /-- wrap a payload to the physical width of its type (what the harness stores in the buffer) -/
@@ -291,6 +339,18 @@ def handle (toks : List String) : String :=
     | some s, some d =>
       (match parseVals s vals with
        | some rows => checkMS (runPlan (plan s d) d (safe = "1") rows) (inDomain s rows)
+       | none => "bad-op")
+    | _, _ => "bad-op"
+  | ["enc", _kind, _var, src, dst, safe, vals] =>
+    -- an encoded source denotes the logical column only: payloads under nulls are dropped
+    match parseTy src, parseTy dst with
+    | some s, some d =>
+      (match parseVals s vals with
+       | some rows =>
+         -- list children keep their physical payloads; other encodings denote the logical column only
+         let rows := if _kind.startsWith "list" ∨ _kind.startsWith "llist" ∨ _kind.startsWith "lview" ∨ _kind.startsWith "fsl"
+           then rows else rows.map (fun r => if r.2 then r else (zeroOf s, false))
+         checkMS (runPlan (plan s d) d (safe = "1") rows) (inDomain s rows)
        | none => "bad-op")
     | _, _ => "bad-op"
   | ["rt", _var, src, mid, vals] =>
